@@ -210,10 +210,11 @@ class ScorerGrammar:
         self.count_other = {}
 
 
-def compare_training(wd, lines, enc, acc, case, raw_bytes=None, keep_existing=False):
+def compare_training(wd, lines, enc, acc, case, raw_bytes=None, keep_existing=False, save_sensitive=False):
     """one training; returns list of (sig, msg)"""
     fails = []
-    ok, base, out, pi, cap = O.train_capture(wd, lines, rule='c7', encoding=enc, ngram=2, alphabet_size=100000, coverage=0.5, raw_bytes=raw_bytes, keep_existing=keep_existing)
+    ok, base, out, pi, cap = O.train_capture(wd, lines, rule='c7', encoding=enc, ngram=2, alphabet_size=100000, coverage=0.5, raw_bytes=raw_bytes, keep_existing=keep_existing,
+                                             save_sensitive=save_sensitive)
     if ok is not True or 'trainer' not in cap:
         return [('train', 'training did not complete: %s' % out[-160:])]
     tr = cap['trainer']
@@ -416,15 +417,18 @@ RETRAIN_POOL = [['password', 'monkey'], ['abc123', 'pass!!', '1qaz2wsx', 'x1'], 
 def run_retrain(enc, tier, acc):
     depth = 3 if tier == 'thorough' else 2
     for hist in itertools.product(range(len(RETRAIN_POOL)), repeat=depth):
-        wd = tree.mkdtemp('pcfgmc-c07r-')
-        for step, li in enumerate(hist):
-            acc.evals += 1
-            if step > 0 and hist[step - 1] != li:
-                acc.nontrivial += 1
-            case = {'layer': 'retrain', 'encoding': enc, 'history': list(hist[:step + 1])}
-            for sig, msg in compare_training(wd, RETRAIN_POOL[li], enc, acc, case, keep_existing=step > 0):
-                acc.fail(case, 'rule name trained with lists %r in turn: after training %d: %s' % ([RETRAIN_POOL[i] for i in hist[:step + 1]], step + 1, msg), 'retrain-' + sig)
-        tree.rmtree(wd)
+        # --save_sensitive additionally keeps full e-mail addresses / URLs in the ruleset: the readers' view must not depend on it
+        for sens in (False, True):
+            wd = tree.mkdtemp('pcfgmc-c07r-')
+            for step, li in enumerate(hist):
+                acc.evals += 1
+                if step > 0 and hist[step - 1] != li:
+                    acc.nontrivial += 1
+                case = {'layer': 'retrain', 'encoding': enc, 'history': list(hist[:step + 1]), 'save_sensitive': sens}
+                for sig, msg in compare_training(wd, RETRAIN_POOL[li], enc, acc, case, keep_existing=step > 0, save_sensitive=sens):
+                    acc.fail(case, 'rule name trained%s with lists %r in turn: after training %d: %s'
+                             % (' (--save_sensitive)' if sens else '', [RETRAIN_POOL[i] for i in hist[:step + 1]], step + 1, msg), 'retrain-' + sig)
+            tree.rmtree(wd)
     acc.sample({'layer': 'retrain', 'pool': RETRAIN_POOL, 'history_length': depth}, cap=1)
 
 
@@ -500,7 +504,7 @@ def replay(case):
     if case['layer'] == 'retrain':
         fails = []
         for step, li in enumerate(case['history']):
-            fails = compare_training(wd, RETRAIN_POOL[li], case['encoding'], acc, None, keep_existing=step > 0)
+            fails = compare_training(wd, RETRAIN_POOL[li], case['encoding'], acc, None, keep_existing=step > 0, save_sensitive=case.get('save_sensitive', False))
         tree.rmtree(wd)
         return fails[0][1] if fails else None
     fails = compare_training(wd, [case['password'], 'xqyz'], case['encoding'], acc, None) if 'password' in case else []
